@@ -70,6 +70,8 @@ var c15ArgTypes = []reflect.Type{
 	reflect.TypeOf(&pEmbedTagged{}), reflect.TypeOf(pEmbedNamed{}), reflect.TypeOf(pStrictV{}), reflect.TypeOf(&pStrictV{}), reflect.TypeOf(pStrictP{}),
 	reflect.TypeOf(&pStrictP{}), reflect.TypeOf((*any)(nil)).Elem(), reflect.TypeOf(json.RawMessage(nil)), reflect.TypeOf(true), reflect.TypeOf(1.5),
 	reflect.TypeOf(struct{}{}), reflect.TypeOf((*int)(nil)),
+	// non-struct parameters that contain structs: strict decoding applies to the whole value
+	reflect.TypeOf([]pPlain(nil)), reflect.TypeOf(map[string]pPlain(nil)), reflect.TypeOf([1]pPlain{}), reflect.TypeOf((**pPlain)(nil)), reflect.TypeOf([]*pTagged(nil)),
 }
 
 // docFieldNames: the positional names of a struct parameter as documented: exported fields in
@@ -156,6 +158,7 @@ var c15Params = []string{
 	"", "null", "{}", "[]", `{"A":1,"b":"x"}`, `{"a":1,"B":"x"}`, `{"A":1,"zz":2}`, `[1,"x"]`, `[1]`, `[1,"x",3]`, `["x",1]`, `5`, `"s"`, `true`,
 	`{"x":3,"why":[1,2]}`, `[3,[1,2]]`, `{"name":"n","N":2,"Q":5}`, `["n",2]`, `["n",{"K":1},3]`, `["n",3]`, `{"name":"n","K":4,"count":2}`, `{"inner":{"K":1},"Z":2}`, `[{"K":1},2]`,
 	`{"a":1,"b":2}`, `[1,2]`, `{"a":1,"b":2,"c":3}`, `[1,2,3]`, `{"A":7}`, `{"A":7,"extra":true}`, `[7]`, `[1, 2 ]`, ` [ 1 ] `, `[null,null]`, `{"A":null}`, `[[1,2],3]`, `{"k":1,"j":2}`, `[1.5]`, `1.5`,
+	`[{"A":1,"b":"x"}]`, `[{"A":1,"zz":2}]`, `{"k":{"A":1,"b":"y"}}`, `{"k":{"A":1,"zz":2}}`, `[{"x":1,"nope":0}]`,
 }
 
 func TestC15(t *testing.T) {
@@ -398,10 +401,14 @@ func TestC16(t *testing.T) {
 	defer res.Write(t)
 	rng := newRNG()
 	ctx := context.Background()
-	kinds := []reflect.Type{reflect.TypeOf(0), reflect.TypeOf(""), reflect.TypeOf([]int(nil)), reflect.TypeOf((*int)(nil)), reflect.TypeOf(map[string]int(nil)), reflect.TypeOf(pPlain{}), reflect.TypeOf(true)}
+	kinds := []reflect.Type{reflect.TypeOf(0), reflect.TypeOf(""), reflect.TypeOf([]int(nil)), reflect.TypeOf((*int)(nil)), reflect.TypeOf(map[string]int(nil)), reflect.TypeOf(pPlain{}), reflect.TypeOf(true),
+		reflect.TypeOf(int64(0)), reflect.TypeOf(uint64(0)), reflect.TypeOf(json.RawMessage(nil))}
 	sample := map[reflect.Type][]string{
 		kinds[0]: {`1`, `null`, `"x"`, `1.5`}, kinds[1]: {`"s"`, `null`, `5`}, kinds[2]: {`[1,2]`, `null`, `[]`, `["a"]`}, kinds[3]: {`7`, `null`, `"p"`},
 		kinds[4]: {`{"k":1}`, `null`, `[1]`}, kinds[5]: {`{"A":1,"b":"y"}`, `null`, `{"A":"bad"}`, `{"zz":1}`}, kinds[6]: {`true`, `null`, `0`},
+		// integers that float64 cannot represent, and pre-encoded text: elements must arrive exactly
+		kinds[7]: {`9007199254740993`, `-9223372036854775808`, `9223372036854775807`, `"x"`}, kinds[8]: {`18446744073709551615`, `9007199254740993`, `-1`},
+		kinds[9]: {`9007199254740993`, `{"a":[1.0,2e0]}`, `"z"`},
 	}
 	var pl, pimpl []string
 	var pin []any
